@@ -382,6 +382,26 @@ func calHandler(args []string) (string, []string) {
 	case (op == "other-table" || op == "abuse") && len(nums) == 1:
 		calAbuse(c, op, nums[0])
 		return "ok", nil
+	case op == "toggle" && len(nums) == 1:
+		// the configuration switches the library exports, thrown n times (alternating, the last throw
+		// leaves the other mode on), then this configuration set again: a counter of configuration
+		// changes kept in 8 or 16 bits is back where it was
+		if nums[0] < 0 || nums[0] > 1<<20 {
+			return "bad-request", nil
+		}
+		for i := 0; i < nums[0]; i++ {
+			on := (nums[0]-i)%2 == 0
+			switch c.name {
+			case "hij-a", "hij-t":
+				hijri.SetUseMonthData(on)
+			case "jal33", "jal2820":
+				jalali.SetAlgorithm2820(on)
+			default:
+				c.setup()
+			}
+		}
+		c.setup()
+		return "ok", nil
 	case op == "jdto" && len(nums) == 1:
 		var ps propSink
 		jd := nums[0]
